@@ -28,7 +28,7 @@ PLAN  = {"quick":    {"shards": 16, "cases": 6400,   "timeout": 900,  "budget_s"
 REQUIRED = ["sched.histories", "sched.contended-index", "hook.lock.acquire", "hook.array.set", "hook.inner.write", "hook.inner.read",
             "hook.sleep", "oracle.M1.read-enter", "oracle.M1.write-enter", "oracle.M2.getter", "oracle.M3.complete-value",
             "oracle.M4.quiescence", "inject.getter-raise", "inject.body-raise", "disk.write-fault", "disk.cut-byte",
-            "threads.runs", "threads.M3.complete-value", "procs.runs", "procs.M2.getter", "procs.M3.complete-value", "procs.M4.quiescence", "cm.runs", "cm.M2.getter", "cm.M3.complete-value"]
+            "threads.runs", "threads.M3.complete-value", "procs.runs", "procs.M2.getter", "procs.M3.complete-value", "procs.M4.quiescence", "cm.runs", "cm.M2.getter", "cm.M3.complete-value", "memory.getter-fault"]
 ASSUMPTIONS = ["a caller never nests get_set on two different keys whose 16-bit hashes collide; nested calls follow a global key order",
                "granularity of part A = lock acquisitions/releases, shared-counter reads/writes, inner-cache operations, retry sleeps",
                "a watchdog or step cap firing without an established deadlock state is inconclusive, not a violation"]
@@ -443,6 +443,44 @@ def disk_faults(ctx, rng, n_values):
         shutil.rmtree(d, ignore_errors=True)
     return viol
 
+# ====================================================================================== part B2: MemoryCacher getter failures
+def memory_faults(ctx, rng, n_values):
+    """a getter (callable returning a generator, a generator object, a callable raising at once) that fails part-way must not
+    leave an entry behind: the next get_set for the key runs its getter and serves the complete value"""
+    import coba.context.cachers as cc
+    viol = []
+    for vi in range(n_values):
+        n = rng.choice([1, 2, 4])
+        want = [f"m{vi}:{i}" for i in range(n)]
+        for kind in ("callable->generator", "generator-object", "callable-raises"):
+            for fail_at in range(n + 1 if kind != "callable-raises" else 1):
+                for wrap in ("plain", "concurrent"):
+                    inner = cc.MemoryCacher()
+                    c = inner if wrap == "plain" else cc.ConcurrentCacher(inner)
+                    def gen():
+                        for j, x in enumerate(want):
+                            if j == fail_at: raise GetterBoom("memory")
+                            yield x
+                        if fail_at == n: raise GetterBoom("memory")
+                    def boom(): raise GetterBoom("memory")
+                    getter = gen if kind == "callable->generator" else gen() if kind == "generator-object" else boom
+                    try:
+                        with c.get_set("k", getter) as v: got0 = v
+                        raised = False
+                    except GetterBoom: raised = True
+                    ctx.count("memory.getter-fault"); ctx.case(("memory", kind, n, fail_at, wrap))
+                    if not raised:
+                        viol.append((f"M6/memory/{kind}-failure-swallowed", f"getter failing at step {fail_at} of {n} was not raised (served {got0!r})")); continue
+                    calls = []
+                    def good():
+                        calls.append(1); return list(want)
+                    with c.get_set("k", good) as v: got = list(v) if v is not None else v
+                    if got != want or not calls:
+                        viol.append((f"M6/memory/{kind}-failure-leaves-entry-served-as-complete", f"after a getter that failed at step {fail_at}: next get_set served {got!r} (getter ran {len(calls)}x) instead of {want}"))
+                    if wrap == "concurrent" and any(x != 0 for x in c._array):
+                        viol.append(("M4/memory/shared-counter-not-zero-after-getter-failure", "counters not zero")); 
+    return viol
+
 # ====================================================================================== part C: real threads
 def thread_stress(ctx, rng, runs):
     import coba.context.cachers as cc
@@ -574,6 +612,7 @@ def run_shard(ctx):
     n_sched = ctx.n
     # part B and C take a fixed small share of every shard
     for sig, what in disk_faults(ctx, ctx.rng, 2 if ctx.tier == "quick" else 12): ctx.violation(sig, what, {"part": "disk"})
+    for sig, what in memory_faults(ctx, ctx.rng, 2 if ctx.tier == "quick" else 12): ctx.violation(sig, what, {"part": "memory"})
     for sig, what in thread_stress(ctx, ctx.rng, 3 if ctx.tier == "quick" else 40): ctx.violation(sig, what, {"part": "threads"})
     if ctx.shard % 4 == 0 or ctx.tier == "thorough":
         for sig, what in process_stress(ctx, ctx.rng, 1 if ctx.tier == "quick" else 6): ctx.violation(sig, what, {"part": "processes"})
